@@ -52,6 +52,30 @@ def three_node_failures():
     return out
 
 
+def late_gossip_then_failure():
+    """A will-carrying session connects and ends on node 2 within one gossip interval; node 1 receives the broadcasts newest
+    first (the removal of the record before the record); then node 2 fails.  After a DISCONNECT the will is never published,
+    after a connection loss exactly once - whatever node 1 has been told, in whatever order."""
+    out = []
+    for end in ("disconnect", "close"):
+        for mode in ("reverse", "auto", "dup"):
+            for q, r in ((1, False), (0, True)):
+                ops = [{"op": "connect", "c": 7, "n": 1, "client": "watch7", "user": "tenant:A", "ka": 60000},
+                       {"op": "sub", "c": 7, "id": 1, "fs": [{"f": ["w", "#"], "q": 1}]},
+                       {"op": "gossip", "mode": "hold"},
+                       {"op": "connect", "c": 1, "n": 2, "client": "brief", "user": "tenant:A", "ka": 10,
+                        "will": {"t": ["w", "brief"], "p": "will-brief-%s" % end, "q": q, "r": r}}]
+                ops.append({"op": "send", "c": 1, "kind": "DISCONNECT"} if end == "disconnect" else {"op": "close", "c": 1})
+                ops += [{"op": "gossip", "mode": mode}, {"op": "settle"},
+                        {"op": "peerfail", "n": 2, "ms": 3300}]
+                if r:
+                    ops += [{"op": "connect", "c": 4, "n": 1, "client": "late", "user": "tenant:A", "ka": 60000},
+                            {"op": "sub", "c": 4, "id": 1, "fs": [{"f": ["w", "+"], "q": 1}]}]
+                ops.append({"op": "quiesce"})
+                out.append({"nodes": [1, 2], "ops": ops})
+    return out
+
+
 def displaced_wills():
     """A will-carrying session is displaced by a newer session of the same client identifier (same node / other node); then both
     end in various ways.  Whether a displaced session's will is published is left open (displacement is not in C13's list) - but
@@ -110,6 +134,7 @@ def check(run):
     t3 = three_node_failures()
     scns += t3
     scns += displaced_wills()
+    scns += late_gossip_then_failure()
     run.log("%d will scripts (%d with a node failure on two nodes, %d on three)" % (len(scns), min(len(pf), npf), len(t3)))
     tpath, crashes = brokerlib.execute(run, scns, "c13", shards=14, timeout=3000)
     if crashes:
@@ -125,7 +150,8 @@ def check(run):
                 "close / malformed / long silence / node failure x will QoS 0-2, retained or not, hosted on node 1 or 2 x three watchers (two nodes, two "
                 "tenants; '#', '+', exact, non-matching filters); plus three-node failures in which the two survivors are told in either order, with or "
                 "without gossip delivered in between; plus 12 schedules in which a will-carrying session is displaced (same node / other node) and "
-                "both sessions then end in various ways" % (5 if thorough else 4),
+                "both sessions then end in various ways; plus 12 in which a session connects and ends within one gossip interval, the other node hears of "
+                "it newest first, in order or with retransmissions, and the hosting node then fails" % (5 if thorough else 4),
         "events_validated": nev, "trace_spec_states": tstates, "rejections": len(rejected),
         "samples": [scns[0]["ops"][7:], scns[-1]["ops"][7:]],
     }, ["displacement by a newer session is not among C13's causes: publishing the will then is allowed, not required",
